@@ -28,6 +28,11 @@ def main():
     machinery = []
     if cov["statements_checked"] < 10000:
         machinery.append("only %d statements evaluated" % cov["statements_checked"])
+    never = sorted(k for k, v in cov["per_statement"].items() if v == 0)
+    expected_statements = sum(len(e["c15"]) for e in check_c01_formulas.F.ENTRIES if e["c15"])
+    if never or len(cov["per_statement"]) < expected_statements:
+        machinery.append("statements never evaluated on a real output (no values delivered?): %s (%d of %d statements seen)" %
+                         (never, len(cov["per_statement"]), expected_statements))
     if cov["documented_formula_leaves_range"]:
         # the documentation itself would contradict the property: reported as a note, the verdict is about the real values
         print("MODEL: the documented formula does not satisfy: %s" % cov["documented_formula_leaves_range"])
